@@ -1655,6 +1655,9 @@ class Switch(ChoiceMap):
             chms = [_chm.mask(_idx == idx) for _idx, _chm in enumerate(chm_iter)]
             return Switch(idx, chms)
 
+    def static_is_empty(self) -> bool:
+        return all(chm.static_is_empty() for chm in self.chms)
+
     def filter(self, selection: Selection | Flag) -> ChoiceMap:
         return Switch.build(self.idx, [chm.filter(selection) for chm in self.chms])
 
